@@ -16,9 +16,20 @@ use std::time::Duration;
 /// native -> binding: the native variants are listed here by hand (an exhaustive `match` in each `guard_*` function
 /// makes the harness stop compiling - INCONCLUSIVE, never a false alarm - when the library gains a variant)
 fn natives<N: Debug, F: Debug>(t: &mut Tally, table: &str, all: Vec<N>, conv: impl Fn(N) -> F, renames: &[(&str, &str)]) {
+    natives_into(t, table, all, conv, renames, &[])
+}
+
+/// `binding_names`: the variants of the binding enum, when known. A native variant that has no namesake there may be
+/// converted to anything - "the like-named value" does not exist, so the statement is silent about it
+fn natives_into<N: Debug, F: Debug>(t: &mut Tally, table: &str, all: Vec<N>, conv: impl Fn(N) -> F, renames: &[(&str, &str)], binding_names: &[String]) {
     for x in all {
         let from = format!("{:?}", x);
         let to = format!("{:?}", conv(x));
+        let bare = from.split(|c| c == '(' || c == '{' || c == ' ').next().unwrap_or("").to_string();
+        if !binding_names.is_empty() && !binding_names.iter().any(|b| norm(b) == norm(&bare)) {
+            t.n += 1;
+            continue;
+        }
         let want = renames.iter().find(|r| norm(r.0) == norm(&from)).map(|r| r.1.to_string()).unwrap_or_else(|| from.clone());
         t.n += 1;
         if t.samples.len() < 2 {
@@ -117,14 +128,14 @@ fn native_to_ffi_enums() -> (u64, Vec<J>, Option<(Fail, J)>) {
     natives(&mut t, "TripCloseCode", vec![TripCloseCode::Nul, TripCloseCode::Close, TripCloseCode::Trip, TripCloseCode::Reserved], ffi::TripCloseCode::from, &[]);
     natives(&mut t, "OpType", vec![OpType::Nul, OpType::PulseOn, OpType::PulseOff, OpType::LatchOn, OpType::LatchOff], ffi::OpType::from, &[]);
     // task errors into each of the binding's error enums
-    natives(&mut t, "TaskError->TaskError", task_errors(), ffi::TaskError::from, TASK_ERROR_RENAMES);
-    natives(&mut t, "TaskError->CommandError", task_errors(), ffi::CommandError::from, TASK_ERROR_RENAMES);
-    natives(&mut t, "TaskError->TimeSyncError", task_errors(), ffi::TimeSyncError::from, TASK_ERROR_RENAMES);
-    natives(&mut t, "TaskError->RestartError", task_errors(), ffi::RestartError::from, TASK_ERROR_RENAMES);
-    natives(&mut t, "TaskError->ReadError", task_errors(), ffi::ReadError::from, TASK_ERROR_RENAMES);
-    natives(&mut t, "TaskError->LinkStatusError", task_errors(), ffi::LinkStatusError::from, TASK_ERROR_RENAMES);
-    natives(&mut t, "TaskError->EmptyResponseError", task_errors(), ffi::EmptyResponseError::from, TASK_ERROR_RENAMES);
-    natives(&mut t, "TaskError->FileError", task_errors(), ffi::FileError::from, TASK_ERROR_RENAMES);
+    natives_into(&mut t, "TaskError->TaskError", task_errors(), ffi::TaskError::from, TASK_ERROR_RENAMES, &v::all_task_error().iter().map(|x| format!("{:?}", x)).collect::<Vec<_>>());
+    natives_into(&mut t, "TaskError->CommandError", task_errors(), ffi::CommandError::from, TASK_ERROR_RENAMES, &v::all_command_error().iter().map(|x| format!("{:?}", x)).collect::<Vec<_>>());
+    natives_into(&mut t, "TaskError->TimeSyncError", task_errors(), ffi::TimeSyncError::from, TASK_ERROR_RENAMES, &v::all_time_sync_error().iter().map(|x| format!("{:?}", x)).collect::<Vec<_>>());
+    natives_into(&mut t, "TaskError->RestartError", task_errors(), ffi::RestartError::from, TASK_ERROR_RENAMES, &v::all_restart_error().iter().map(|x| format!("{:?}", x)).collect::<Vec<_>>());
+    natives_into(&mut t, "TaskError->ReadError", task_errors(), ffi::ReadError::from, TASK_ERROR_RENAMES, &v::all_read_error().iter().map(|x| format!("{:?}", x)).collect::<Vec<_>>());
+    natives_into(&mut t, "TaskError->LinkStatusError", task_errors(), ffi::LinkStatusError::from, TASK_ERROR_RENAMES, &v::all_link_status_error().iter().map(|x| format!("{:?}", x)).collect::<Vec<_>>());
+    natives_into(&mut t, "TaskError->EmptyResponseError", task_errors(), ffi::EmptyResponseError::from, TASK_ERROR_RENAMES, &v::all_empty_response_error().iter().map(|x| format!("{:?}", x)).collect::<Vec<_>>());
+    natives_into(&mut t, "TaskError->FileError", task_errors(), ffi::FileError::from, TASK_ERROR_RENAMES, &v::all_file_error().iter().map(|x| format!("{:?}", x)).collect::<Vec<_>>());
     // command errors: (native value, name expected on the binding side); header/object mismatches are folded into one
     for (e, want) in [
         (CommandError::Response(CommandResponseError::BadStatus(CommandStatus::Timeout)), "BadStatus"),
